@@ -6,7 +6,10 @@ use std::io::Write;
 use std::process::{Command, Stdio};
 use std::time::Instant;
 
-pub const VERIF_DIR: &str = "/verif";
+/// root of the verification tree (set by ./check, so that snapshot copies write into themselves)
+pub fn verif_dir() -> String {
+    std::env::var("VERIF_HOME").unwrap_or_else(|_| "/verif".to_string())
+}
 
 #[derive(Clone, Debug)]
 pub struct Ctx {
@@ -123,7 +126,7 @@ impl WorkerOut {
             self.add("violations_not_listed", 1);
             return;
         }
-        let dir = format!("{}/replays/{}", VERIF_DIR, ctx.prop);
+        let dir = format!("{}/replays/{}", verif_dir(), ctx.prop);
         let _ = std::fs::create_dir_all(&dir);
         let path = format!("{}/w{}_{}.json", dir, ctx.worker.unwrap_or(0), n);
         let mut r = replay;
@@ -187,16 +190,28 @@ pub fn silence_stdout() {
 
 /// Spawns the worker processes (re-executing the current binary) and aggregates their output.
 pub fn run_workers(ctx: &Ctx) -> Agg {
+    run_workers_resumable(ctx, 0)
+}
+
+/// As run_workers; a worker that ends without a result (exit code 3 = lost its evaluator thread,
+/// or killed by a signal) is started again up to `max_respawns` times; it resumes from its state file.
+pub fn run_workers_resumable(ctx: &Ctx, max_respawns: usize) -> Agg {
     let t0 = Instant::now();
     let exe = std::env::current_exe().unwrap();
-    let scratch = format!("{}/scratch/{}", VERIF_DIR, ctx.prop);
+    let scratch = format!("{}/scratch/{}", verif_dir(), ctx.prop);
     let _ = std::fs::remove_dir_all(&scratch);
     std::fs::create_dir_all(&scratch).unwrap();
-    let _ = std::fs::remove_dir_all(format!("{}/replays/{}", VERIF_DIR, ctx.prop));
+    let _ = std::fs::remove_dir_all(format!("{}/replays/{}", verif_dir(), ctx.prop));
     let mut children = vec![];
-    for w in 0..ctx.workers {
+    let spawn = |w: usize, append: bool| -> (usize, String, std::process::Child) {
         let out = format!("{}/w{}.json", scratch, w);
-        let err = std::fs::File::create(format!("{}/w{}.err", scratch, w)).unwrap();
+        let err = std::fs::OpenOptions::new()
+            .create(true)
+            .append(append)
+            .write(true)
+            .truncate(!append)
+            .open(format!("{}/w{}.err", scratch, w))
+            .unwrap();
         let mut cmd = Command::new(&exe);
         cmd.arg("--prop")
             .arg(&ctx.prop)
@@ -213,7 +228,10 @@ pub fn run_workers(ctx: &Ctx) -> Agg {
         }
         cmd.env("VERIF_SEED", ctx.seed.to_string());
         cmd.stdout(Stdio::null()).stderr(Stdio::from(err));
-        children.push((w, out, cmd.spawn().expect("spawn worker")));
+        (w, out, cmd.spawn().expect("spawn worker"))
+    };
+    for w in 0..ctx.workers {
+        children.push(spawn(w, false));
     }
     let mut agg = Agg {
         counters: BTreeMap::new(),
@@ -224,8 +242,41 @@ pub fn run_workers(ctx: &Ctx) -> Agg {
         wall_s: 0.0,
         machinery_errors: vec![],
     };
-    for (w, out, mut ch) in children {
-        let status = ch.wait().unwrap();
+    let mut respawns_total = 0usize;
+    // concurrent supervision: respawn workers that ended without a result as soon as they exit
+    let mut slots: Vec<(usize, String, Option<std::process::Child>, usize, Option<std::process::ExitStatus>)> =
+        children.into_iter().map(|(w, out, ch)| (w, out, Some(ch), 0usize, None)).collect();
+    loop {
+        let mut running = 0;
+        for slot in slots.iter_mut() {
+            if let Some(ch) = slot.2.as_mut() {
+                match ch.try_wait() {
+                    Ok(Some(st)) => {
+                        slot.4 = Some(st);
+                        slot.2 = None;
+                        let txt = std::fs::read_to_string(&slot.1).unwrap_or_default();
+                        let v: Value = serde_json::from_str(&txt).unwrap_or(Value::Null);
+                        if v.get("done").is_none() && slot.3 < max_respawns {
+                            slot.3 += 1;
+                            respawns_total += 1;
+                            let (_, _, ch2) = spawn(slot.0, true);
+                            slot.2 = Some(ch2);
+                            running += 1;
+                        }
+                    }
+                    Ok(None) => running += 1,
+                    Err(_) => {
+                        slot.2 = None;
+                    }
+                }
+            }
+        }
+        if running == 0 {
+            break;
+        }
+        std::thread::sleep(std::time::Duration::from_millis(15));
+    }
+    for (w, out, _, _, status) in slots {
         let txt = std::fs::read_to_string(&out).unwrap_or_default();
         let v: Value = serde_json::from_str(&txt).unwrap_or(Value::Null);
         if v.get("done").is_none() {
@@ -274,6 +325,7 @@ pub fn run_workers(ctx: &Ctx) -> Agg {
             }
         }
     }
+    agg.counters.insert("worker_restarts".into(), respawns_total as u64);
     agg.wall_s = t0.elapsed().as_secs_f64();
     agg
 }
@@ -287,7 +339,7 @@ pub struct Finding {
 }
 
 pub fn load_findings() -> Vec<Finding> {
-    let txt = std::fs::read_to_string(format!("{}/known_findings.json", VERIF_DIR)).unwrap_or_default();
+    let txt = std::fs::read_to_string(format!("{}/known_findings.json", verif_dir())).unwrap_or_default();
     let v: Value = serde_json::from_str(&txt).unwrap_or(Value::Null);
     let mut out = vec![];
     if let Some(a) = v["findings"].as_array() {
@@ -367,8 +419,8 @@ pub fn conclude(ctx: &Ctx, agg: &Agg, spec: EvidenceSpec) -> i32 {
         "wall_s": agg.wall_s,
         "violations": unknown.len(),
     });
-    let _ = std::fs::create_dir_all(format!("{}/evidence", VERIF_DIR));
-    let path = format!("{}/evidence/{}.json", VERIF_DIR, ctx.prop);
+    let _ = std::fs::create_dir_all(format!("{}/evidence", verif_dir()));
+    let path = format!("{}/evidence/{}.json", verif_dir(), ctx.prop);
     std::fs::write(&path, serde_json::to_string_pretty(&ev).unwrap()).unwrap();
     let stdout = std::io::stdout();
     let mut o = stdout.lock();
